@@ -32,16 +32,27 @@ type Result struct {
 	replayOut  string
 }
 
-func (o *Obligation) Query(withModel bool) string {
+func (o *Obligation) Query(withModel bool) string { return o.QuerySliced(withModel, -1) }
+
+// QuerySliced builds the query; factDepth < 0 means the full prefix, otherwise the cone of influence of the goal
+// with facts followed up to the given depth.
+func (o *Obligation) QuerySliced(withModel bool, factDepth int) string {
 	var b strings.Builder
 	b.WriteString(basePreamble)
 	for _, d := range o.Script.sorts.decls {
 		b.WriteString(d)
 		b.WriteString("\n")
 	}
-	for _, l := range o.Script.lines[:o.PrefixLen] {
-		b.WriteString(l)
-		b.WriteString("\n")
+	if factDepth >= 0 {
+		for _, i := range o.Script.slice(o.PrefixLen, o.PC+" "+o.Goal, factDepth) {
+			b.WriteString(o.Script.lines[i])
+			b.WriteString("\n")
+		}
+	} else {
+		for _, l := range o.Script.lines[:o.PrefixLen] {
+			b.WriteString(l)
+			b.WriteString("\n")
+		}
 	}
 	if o.PC != "" && o.PC != "true" {
 		fmt.Fprintf(&b, "(assert %s)\n", o.PC)
@@ -152,6 +163,26 @@ func SolveAll(obls []*Obligation, opts SolveOpts) []Result {
 			q := o.Query(true)
 			if opts.DumpDir != "" {
 				os.WriteFile(filepath.Join(opts.DumpDir, sanitize(o.Name)+".smt2"), []byte(q), 0644)
+			}
+			// sliced attempts first (sound for unsat): small cone, then a larger one, then the full query
+			if !o.Canary && o.PrefixLen > 300 {
+				proved := false
+				for _, depth := range []int{2, 4} {
+					sq := o.QuerySliced(false, depth)
+					if len(sq) > len(q)*9/10 {
+						continue
+					}
+					sto := 8
+					st, sv, out, ms := runSolvers(sq, opts.Solvers, sto, opts.Workdir, fmt.Sprintf("q%ds%d", i, depth))
+					if st == "unsat" {
+						res[i] = Result{Name: o.Name, Kind: o.Kind, Fn: o.Fn, Status: st, Solver: sv + fmt.Sprintf("(slice%d)", depth), Ms: ms, Output: out, Canary: o.Canary, Pos: o.Pos, Text: o.Text, Query: sq}
+						proved = true
+						break
+					}
+				}
+				if proved {
+					return
+				}
 			}
 			to := opts.TimeoutS
 			if o.Canary && to > 4 {
